@@ -15,8 +15,8 @@ from ..core import runner, snapshot
 ID = 'C19'
 
 BOUNDS = {
-    'quick': dict(HORIZON=5, MAXLIST=3, FULLBITS=4),
-    'thorough': dict(HORIZON=7, MAXLIST=4, FULLBITS=6),
+    'quick': dict(HORIZON=6, MAXLIST=4, FULLBITS=4),
+    'thorough': dict(HORIZON=10, MAXLIST=6, FULLBITS=6),
 }
 
 FLOATS = [0.0, 5e-324, 0.5, 1 - 2 ** -53, 0.1, 2 ** -53]
